@@ -163,8 +163,20 @@ def gen_reduce_core(rng, n):
         arr = gencalls.int_data(rng, gencalls.shape_of(din), 0, 3)
         c = gencalls.Call("reduce", op, [din], [dout], [arr.astype(bool) if op in ("any", "all") else (arr.astype(np.float64) if op in ("mean", "var", "std") else arr)])
         c.describe(rng)
+        if rng.random() < 0.4:
+            # the same reduction written without brackets: einx brackets the axes missing from the output (C07); the model does it itself
+            c.desc = c.desc.replace("[", "").replace("]", "")
+            c.meta["unbracketed"] = True
         out.append(c)
     return out
+
+
+def _unmarked(dims):
+    import copy
+    d2 = copy.deepcopy(dims)
+    for l in gencalls.leaves(d2):
+        l.marked = False
+    return d2
 
 
 def run_lowering(ctx):
@@ -223,7 +235,11 @@ def run_lowering(ctx):
     for c, cap in zip(rcases, rcaps):
         if cap[0] == "term":
             names = gencalls.Names()
-            lines.append(sx(["lower_reduce", [irser.s_str(c.op), gencalls.w_dims(c.ins[0], names), gencalls.w_dims(c.outs[0], names), cap[1]]]))
+            if c.meta.get("unbracketed"):
+                stats["reduce_written_without_brackets"] = stats.get("reduce_written_without_brackets", 0) + 1
+                lines.append(sx(["lower_reduce_auto", [irser.s_str(c.op), gencalls.w_dims(_unmarked(c.ins[0]), names), gencalls.w_dims(c.outs[0], names), cap[1]]]))
+            else:
+                lines.append(sx(["lower_reduce", [irser.s_str(c.op), gencalls.w_dims(c.ins[0], names), gencalls.w_dims(c.outs[0], names), cap[1]]]))
             owners.append(c)
         elif cap[0] == "nograph" and cap[1] == 0:
             stats["served_from_cache_no_trace"] = stats.get("served_from_cache_no_trace", 0) + 1
